@@ -40,27 +40,31 @@ Proof.
   unfold is_nonmem_copy. intros H. repeat (apply orb_prop in H; destruct H as [H|H]); apply String.eqb_eq in H; auto.
 Qed.
 
-Theorem justified_sound O C F i i' s s' s1 :
-  cinv C s -> allholds O s F -> seq2 s s' -> justified C F i i' = true -> exec O i s = Next s1 ->
+Lemma operand_eqb_sym a b : operand_eqb a b = operand_eqb b a.
+Proof. destruct a, b; cbn; auto using Z.eqb_sym, N.eqb_sym. Qed.
+
+Theorem justified_sound_mcopy O C F i i' s s' s1 :
+  cinv C s -> allholds O s F -> seq2 s s' -> i_op i = "mcopy" -> justified C F i i' = true -> exec O i s = Next s1 ->
   exists s1', exec O i' s' = Next s1' /\ seq2 s1 s1'.
 Proof.
-  intros HI HF R J He. pose proof R as [Ev [Em [Er [Ew Ep]]]].
-  destruct i as [op args outs wm wrd id], i' as [op' args' outs' wm' wrd' id']. unfold justified in J. cbn [i_op i_args i_outs] in J.
-  destruct (String.eqb op "mcopy") eqn:Eo; try discriminate. apply String.eqb_eq in Eo. subst op.
+  intros HI HF R Eo J He. pose proof R as [Ev [Em [Er [Ew Ep]]]].
+  destruct i as [op args outs wm wrd id ann], i' as [op' args' outs' wm' wrd' id' ann']. unfold justified in J. cbn [i_op i_args i_outs] in *.
+  subst op. ceqb.
   destruct args as [|on [|os [|od [|? ?]]]]; try discriminate. destruct outs; try discriminate.
-  destruct (size_lit on) as [nz|] eqn:Sz; try discriminate.
   unfold exec in He. cbn [i_op i_args i_outs] in He. ceqb.
   destruct (ovals s [on; os; od]) as [a|] eqn:Oa; try discriminate.
   destruct (ovals3 _ _ _ _ _ Oa) as [vn [vs [vd [Ea [On [Os Od]]]]]]. subst a.
-  pose proof (size_lit_val _ _ _ _ Sz On). subst vn. inversion He. subst s1. clear He.
+  destruct vn as [[?|] nz]; try discriminate. inversion He. subst s1. clear He.
   destruct (String.eqb op' "nop") eqn:En.
   - (* R2 *)
     apply String.eqb_eq in En. subst op'. destruct args'; try discriminate. destruct outs'; try discriminate.
     exists s'. split. { unfold exec. cbn [i_op i_args i_outs]. ceqb. cbn. reflexivity. }
     apply existsb_exists in J. destruct J as [[opF dF sF nF] [Hin J]].
     repeat (apply andb_prop in J; let J2 := fresh "J" in destruct J as [J J2]).
-    apply String.eqb_eq in J. subst opF. apply Z.eqb_eq in J2. subst nF.
-    destruct (HF _ Hin) as [vdF [vsF [HdF [HsF Hb]]]].
+    apply String.eqb_eq in J. subst opF.
+    destruct (HF _ Hin) as [vdF [vsF [vnF [HdF [HsF [HnF Hb]]]]]].
+    assert (EnF : oval s nF = oval s on) by (apply operand_eqb_oval; assumption).
+    rewrite EnF, On in HnF. inversion HnF. subst vnF.
     assert (vd = vdF) by (apply (same_val_sound C s od dF vd vdF HI); assumption).
     assert (vs = vsF) by (apply (same_val_sound C s os sF vs vsF HI); assumption). subst vdF vsF.
     repeat split; auto. cbn. eapply meq_trans; [|exact Em]. apply mwrite_id. intros j Hj.
@@ -71,8 +75,10 @@ Proof.
     repeat (apply andb_prop in J; let J2 := fresh "J" in destruct J as [J J2]).
     apply existsb_exists in J0. destruct J0 as [[opF dF sF nF] [Hin J3]].
     repeat (apply andb_prop in J3; let J2 := fresh "J" in destruct J3 as [J3 J2]).
-    apply String.eqb_eq in J3. subst opF. apply Z.eqb_eq in J4. subst nF. cbn [i_op] in *.
-    destruct (HF _ Hin) as [vdF [vsF [HdF [HsF Hb]]]].
+    apply String.eqb_eq in J3. subst opF. cbn [i_op] in *.
+    destruct (HF _ Hin) as [vdF [vsF [vnF [HdF [HsF [HnF Hb]]]]]].
+    assert (EnF : oval s nF = oval s on) by (apply operand_eqb_oval; assumption).
+    rewrite EnF, On in HnF. inversion HnF. subst vnF.
     assert (vs = vdF) by (apply (same_val_sound C s os dF vs vdF HI); assumption). subst vdF.
     assert (Os' : oval s os' = Some vsF) by (apply (same_new_sound C s os' sF vsF HI); assumption).
     assert (Oa' : ovals s' [on'; os'; od'] = Some [(None, nz); vsF; vd]).
@@ -87,4 +93,108 @@ Proof.
         destruct (nonmem_cases _ Ec) as [ -> | [ -> | [ -> | -> ] ] ]; ceqb; reflexivity. }
       repeat split; auto. cbn. apply mwrite_meq_rng; auto. intros j Hj. rewrite (Hb j Hj). unfold src_of. rewrite Nm.
       unfold src_byte. rewrite Er. reflexivity.
+Qed.
+
+(* ---- R4: read-only invoke operands *)
+Lemma ovals_nth s : forall l a q vq, ovals s l = Some a -> nth_error a q = Some vq -> exists o, nth_error l q = Some o /\ oval s o = Some vq.
+Proof.
+  induction l as [|o t IH]; intros a q vq H Hn; cbn in H.
+  - inversion H. subst. destruct q; discriminate.
+  - destruct (oval s o) as [v|] eqn:Ov; try discriminate. destruct (ovals s t) as [r|] eqn:Or; try discriminate. inversion H. subst a.
+    destruct q; cbn in *.
+    + inversion Hn. subst. exists o. auto.
+    + eapply IH; eauto.
+Qed.
+Lemma nth_combine {A B} : forall (l : list A) (m : list B) q x y, nth_error l q = Some x -> nth_error m q = Some y -> In (x, y) (combine l m).
+Proof.
+  induction l as [|a t IH]; intros m q x y H1 H2; destruct q, m; cbn in *; try discriminate.
+  - inversion H1. inversion H2. left. reflexivity.
+  - right. eapply IH; eauto.
+Qed.
+Lemma operand_eqx_oval s a b : operand_eqx a b = true -> oval s a = oval s b.
+Proof. destruct a, b; cbn; try discriminate; intros H; [apply Z.eqb_eq in H|apply N.eqb_eq in H|apply N.eqb_eq in H]; subst; reflexivity. Qed.
+
+Lemma ro_args_sound O C F s all_new all_ann all' : cinv C s -> allholds O s F -> ovals s all_new = Some all' ->
+  forall ops ops' ann a, ro_args_ok C F all_new all_ann ops ops' ann = true -> ovals s ops = Some a ->
+  exists a', ovals s ops' = Some a' /\ args_rel s all' all_ann a a' ann.
+Proof.
+  intros HI HF Hall. induction ops as [|x r IH]; intros ops' ann a H Ho.
+  - destruct ops', ann; cbn [ro_args_ok] in H; try discriminate. cbn in Ho. inversion Ho. exists []. split; cbn; auto.
+  - destruct ops' as [|x' r'], ann as [|an rn]; cbn [ro_args_ok] in H; try discriminate. apply andb_prop in H. destruct H as [Hx Hr].
+    cbn in Ho. destruct (oval s x) as [v|] eqn:Ov; try discriminate. destruct (ovals s r) as [ar|] eqn:Or; try discriminate. inversion Ho. subst a.
+    destruct (IH r' rn ar Hr eq_refl) as [ar' [Har' Rel]].
+    apply orb_prop in Hx. destruct Hx as [Hx|Hx].
+    + exists (v :: ar'). cbn. rewrite <- (operand_eqx_oval s _ _ Hx), Ov, Har'. split; auto.
+    + destruct an as [sz|]; try discriminate. apply andb_prop in Hx. destruct Hx as [Hf Hal].
+      apply existsb_exists in Hf. destruct Hf as [[opF dF sF nF] [Hin J]].
+      repeat (apply andb_prop in J; let J2 := fresh "J" in destruct J as [J J2]).
+      apply String.eqb_eq in J. subst opF.
+      destruct (HF _ Hin) as [vdF [vsF [vnF [HdF [HsF [HnF Hb]]]]]].
+      assert (v = vdF) by (apply (same_val_sound C s x dF v vdF HI); assumption). subst vdF.
+      assert (Ox' : oval s x' = Some vsF) by (apply (same_new_sound C s x' sF vsF HI); assumption).
+      exists (vsF :: ar'). cbn. rewrite Ox', Har'. split; auto. split; auto. right.
+      exists sz, vnF. refine (conj eq_refl (conj _ (conj _ _))).
+      * rewrite (operand_eqb_oval s sz nF) by assumption. exact HnF.
+      * intros j Hj. rewrite (Hb j Hj). unfold src_of. ceqb. reflexivity.
+      * intros Hne q vq Hq Hv. unfold region_of in Hal. destruct (cert_op C x') as [[rg kx]|] eqn:Cx; try discriminate.
+        destruct (cert_op_val C s x' rg kx vsF HI Cx Ox') as [A1 _].
+        destruct rg as [rg|]; [|exfalso; apply Hne; exact A1].
+        rewrite forallb_forall in Hal. destruct (ovals_nth s _ _ _ _ Hall Hv) as [oq [Hoq Hvq]].
+        specialize (Hal (oq, None) (nth_combine _ _ _ _ _ Hoq Hq)). cbn [fst snd] in Hal.
+        assert (Hal2 : (exists l, oq = OLab l) \/ match region_of C oq with Some r => negb (oeqb r (Some rg)) | None => false end = true).
+        { destruct oq; eauto. }
+        clear Hal. destruct Hal2 as [[l ->]|Hal]. { cbn in Hvq. inversion Hvq. rewrite A1. cbn. discriminate. }
+        unfold region_of in Hal.
+        destruct (cert_op C oq) as [[rq kq]|] eqn:Cq; try discriminate.
+        destruct (cert_op_val C s oq rq kq vq HI Cq Hvq) as [B1 _]. rewrite A1, B1. intros E. rewrite E in Hal.
+        cbn in Hal. rewrite Z.eqb_refl in Hal. discriminate.
+Qed.
+
+Lemma ann_eqb_eq a b : ann_eqb a b = true -> a = b.
+Proof. destruct a as [p|], b as [q|]; cbn; try discriminate; auto. intros H. f_equal.
+  destruct p, q; cbn in H; try discriminate; f_equal; try (apply Z.eqb_eq; exact H); apply N.eqb_eq; exact H. Qed.
+Lemma list_eqb_eq0 {A} (eqb : A -> A -> bool) : (forall x y, eqb x y = true -> x = y) -> forall l m, list_eqb eqb l m = true -> l = m.
+Proof. intros H. induction l; destruct m; cbn; try discriminate; auto. intros Q. apply andb_prop in Q. destruct Q as [Q1 Q2].
+  f_equal; auto. Qed.
+
+Definition out_rel (a b : outcome) : Prop :=
+  match a with Stuck => True | Halt => b = Halt | Next s1 => exists s1', b = Next s1' /\ seq2 s1 s1' end.
+
+Theorem justified_sound_invoke O C F i i' s s' :
+  oracle_ext O -> ro_uniform O -> cinv C s -> allholds O s F -> seq2 s s' -> i_op i = "invoke" -> justified C F i i' = true ->
+  out_rel (exec O i s) (exec O i' s').
+Proof.
+  intros Hext Hro HI HF R Eo J. pose proof R as [Ev [Em [Er [Ew Ep]]]].
+  unfold justified in J. rewrite Eo in J. ceqb.
+  repeat (apply andb_prop in J; let J2 := fresh "J" in destruct J as [J J2]).
+  apply String.eqb_eq in J. apply (list_eqb_eq0 N.eqb (fun x y => proj1 (N.eqb_eq x y))) in J5.
+  apply Bool.eqb_prop in J4. apply Bool.eqb_prop in J3. apply Z.eqb_eq in J2. apply (list_eqb_eq0 _ ann_eqb_eq) in J1.
+  unfold exec. rewrite Eo, J. ceqb.
+  destruct (ovals s (i_args i)) as [a|] eqn:Oa; [|exact I].
+  assert (Hall : exists all', ovals s (i_args i') = Some all').
+  { (* the new operands have values: shown together with the relation below; first a weak run to get them *)
+    destruct (ovals s (i_args i')) as [x|] eqn:Q; [eauto|].
+    exfalso. assert (G : forall all_new all_ann ops ops' ann a0, ro_args_ok C F all_new all_ann ops ops' ann = true -> ovals s ops = Some a0 -> ovals s ops' <> None).
+    { clear - HI HF. induction ops as [|x r IH]; intros ops' ann a0 H Ho; destruct ops' as [|x' r'], ann as [|an rn]; cbn [ro_args_ok] in H; try discriminate.
+      apply andb_prop in H. destruct H as [Hx Hr]. cbn in Ho.
+        destruct (oval s x) as [v|] eqn:Ov; try discriminate. destruct (ovals s r) as [ar|] eqn:Or; try discriminate.
+        specialize (IH r' rn ar Hr eq_refl). cbn. destruct (ovals s r'); [|contradiction].
+        apply orb_prop in Hx. destruct Hx as [Hx|Hx].
+        + rewrite <- (operand_eqx_oval s _ _ Hx), Ov. intros Q0. discriminate Q0.
+        + destruct an as [sz|]; try discriminate. apply andb_prop in Hx. destruct Hx as [Hf _].
+          apply existsb_exists in Hf. destruct Hf as [[opF dF sF nF] [Hin J]].
+          repeat (apply andb_prop in J; let J2 := fresh "J" in destruct J as [J J2]).
+          destruct (HF _ Hin) as [vdF [vsF [vnF [HdF [HsF [HnF Hb]]]]]].
+          rewrite (same_new_sound C s x' sF vsF HI) by assumption. intros Q0. discriminate Q0. }
+    exact (G _ _ _ _ _ _ J0 Oa Q). }
+  destruct Hall as [all' Hall].
+  destruct (ro_args_sound O C F s (i_args i') (i_ann i) all' HI HF Hall _ _ _ _ J0 Oa) as [a' [Ha' Rel]].
+  rewrite Ha' in Hall. inversion Hall. subst all'.
+  rewrite <- (ovals_vars s s' _ Ev), Ha'.
+  assert (SB : same_but_args i i') by (unfold same_but_args; repeat split; congruence).
+  pose proof (Hro i i' a a' s s' R Eo SB Rel) as Hs.
+  destruct (o_step O i a s) as [[[[o m] r] w]|]; destruct (o_step O i' a' s') as [[[[o' m'] r'] w']|]; cbn in Hs; try contradiction; cbn; auto.
+  destruct Hs as [-> [Hm [-> ->]]]. rewrite <- Ev, <- J5.
+  destruct (set_outs (vars s) (i_outs i) o'); [|exact I]. eexists. split; [reflexivity|].
+  rewrite <- J4, <- J3. repeat split; cbn; auto. destruct (i_wm i); auto. destruct (i_wrd i); auto.
 Qed.
